@@ -8,7 +8,7 @@ V="$(cd "$(dirname "$0")/../.." && pwd)"
 exec 8>/tmp/.verif_vm.lock; flock 8
 HEAD=$(git -C "$V" rev-parse HEAD)
 if [ ! -d /tmp/vm/.git ] && [ ! -f /tmp/vm/.git ]; then git -C "$V" worktree add -q --detach /tmp/vm "$HEAD" || exit 2; fi
-git -C /tmp/vm checkout -q --detach "$HEAD" || exit 2
+git -C /tmp/vm clean -fdq -e lean/.lake -e replays; git -C /tmp/vm checkout -q -f --detach "$HEAD" || exit 2
 mkdir -p /tmp/vm/lean/.lake
 WT=/tmp/mut/try_$$
 git -C /repo worktree add -q --detach "$WT" HEAD || exit 2
